@@ -536,14 +536,30 @@ def loop_positions(text):
 
 
 def insert_loop_specs(text, specs, fn_name):
-    """specs: {ordinal(int, 1-based): spec text}.  Inserted before the loop body's `{`."""
+    """specs: {key: spec text}; key = 1-based ordinal (int) or ('head', 'token pattern of the loop header', optional).
+    Inserted before the loop body's `{`."""
     if not specs:
         return text
     toks, pos = loop_positions(text)
+    ins = {}
     for n in specs:
-        if n < 1 or n > len(pos):
-            raise ExtractError(f"anchor lost: loop {n} of {fn_name} (function has {len(pos)} loops)")
-    ins = {pos[n - 1][1]: specs[n] for n in specs}
+        if isinstance(n, int):
+            if n < 1 or n > len(pos):
+                raise ExtractError(f"anchor lost: loop {n} of {fn_name} (function has {len(pos)} loops)")
+            ins[pos[n - 1][1]] = specs[n]
+        else:
+            _, head, optional = n
+            pat = [t.text for t in sig(tokenize(head))]
+            hits = []
+            for (kw, brace) in pos:
+                hdr = [t.text for t in toks[kw:brace] if t.kind not in ("ws", "comment")]
+                if hdr[:len(pat)] == pat:
+                    hits.append(brace)
+            if len(hits) == 0 and optional:
+                continue
+            if len(hits) != 1:
+                raise ExtractError(f"anchor lost: loop `{head}` of {fn_name} ({len(hits)} matches)")
+            ins[hits[0]] = specs[n]
     out = []
     for i, t in enumerate(toks):
         if i in ins:
@@ -552,7 +568,39 @@ def insert_loop_specs(text, specs, fn_name):
     return "".join(out)
 
 
-def insert_after_pattern(text, pattern, insertion, fn_name, before=False, nth=1, arm_end=False):
+def _last_stmt_start(toks, bo, bc):
+    """index of the first token of the last top-level statement/expression inside block toks[bo..bc]"""
+    starts = []
+    i = bo + 1
+    cur = None
+    block_like = False
+    while i < bc:
+        t = toks[i]
+        if t.kind in ("ws", "comment"):
+            i += 1; continue
+        if cur is None:
+            cur = i
+            starts.append(i)
+            block_like = t.text in ("if", "while", "loop", "for", "match", "{", "unsafe", "proof")
+        if t.kind == "punct" and t.text in OPEN:
+            j = match_close(toks, i)
+            if t.text == "{" and block_like:
+                k = _next_sig(toks, j + 1)
+                if k < bc and toks[k].text == "else":
+                    i = k + 1; continue
+                if k < bc and toks[k].text in (".", "?"):
+                    block_like = False; i = j + 1; continue
+                cur = None
+            i = j + 1; continue
+        if t.kind == "punct" and t.text == ";":
+            cur = None
+        i += 1
+    if not starts:
+        raise ExtractError("empty arm")
+    return starts[-1]
+
+
+def insert_after_pattern(text, pattern, insertion, fn_name, before=False, nth=1, arm_end=False, arm_last=False):
     """insert `insertion` right after (or before) the nth occurrence of the token sequence `pattern`
     (whitespace-insensitive).  arm_end: insert before the `}` closing the first `{` that follows the pattern.
     Used for ghost snapshots and arm-end assertions (R6)."""
@@ -565,13 +613,35 @@ def insert_after_pattern(text, pattern, insertion, fn_name, before=False, nth=1,
             seen += 1
             if seen != nth:
                 continue
-            if arm_end:
+            if arm_last:
+                j = s_idx[a + len(pat) - 1] + 1
+                while j < len(toks) and toks[j].text != "{":
+                    j += 1
+                if j >= len(toks):
+                    break
+                at = _last_stmt_start(toks, j, match_close(toks, j))
+            elif arm_end:
                 j = s_idx[a + len(pat) - 1] + 1
                 while j < len(toks) and toks[j].text != "{":
                     j += 1
                 if j >= len(toks):
                     break
                 at = match_close(toks, j)
+                # the insertion point must be reachable: the block must not end in return/break/continue
+                k = at - 1
+                while k > j and toks[k].kind in ("ws", "comment"): k -= 1
+                if toks[k].text == ";":
+                    # walk back to the start of the last statement at this depth
+                    d = 0; m = k - 1
+                    while m > j:
+                        x = toks[m]
+                        if x.kind == "punct" and x.text in CLOSE: d += 1
+                        elif x.kind == "punct" and x.text in OPEN: d -= 1
+                        elif d == 0 and x.text == ";": break
+                        m -= 1
+                    first = toks[_next_sig(toks, m + 1)]
+                    if first.text in ("return", "break", "continue"):
+                        raise ExtractError(f"insertion point after `{first.text}` is unreachable: `{pattern}` in {fn_name}")
             else:
                 at = s_idx[a] if before else s_idx[a + len(pat) - 1] + 1
             return "".join(t.text for t in toks[:at]) + insertion + "".join(t.text for t in toks[at:])
